@@ -166,7 +166,7 @@ inline int RunStream(std::istream& in, const Handler& h, Report& rep) {
 // watchdog) is re-run case by case so that the faulting input is identified and becomes a violation witness.
 struct IsoOptions {
   size_t batch = 2000;
-  unsigned watchdogSeconds = 20;      // per case
+  unsigned watchdogSeconds = 90;      // per case; generous: under sanitizers on a loaded machine a legitimate case (five evaluations running into the iteration limit) took 12 s
   std::string faultProperty = "C04";
   std::function<std::string(const json&)> faultPropertyOf;  // optional per-case attribution
 };
